@@ -122,11 +122,11 @@ func c03RealRepl(mode int, raw []byte) []byte {
 	case 0:
 		return parse.ReplaceEntities(b, mhtml.EntitiesMap, mhtml.TextRevEntitiesMap)
 	case 1:
-		return parse.ReplaceEntities(b, mhtml.EntitiesMap, nil)
+		return parse.ReplaceEntities(b, mhtml.EntitiesMap, mhtml.AttrRevEntitiesMap)
 	case 2:
 		return parse.ReplaceMultipleWhitespaceAndEntities(b, mhtml.EntitiesMap, mhtml.TextRevEntitiesMap)
 	default:
-		return parse.ReplaceMultipleWhitespaceAndEntities(b, mhtml.EntitiesMap, nil)
+		return parse.ReplaceMultipleWhitespaceAndEntities(b, mhtml.EntitiesMap, mhtml.AttrRevEntitiesMap)
 	}
 }
 
